@@ -44,24 +44,24 @@ FirstTodo ==
   LET o == MsgBaseOrder(Nodes) IN
   o[CHOOSE i \in 1..Len(o) : o[i] \in todo /\ \A j \in 1..(i - 1) : o[j] \notin todo]
 
-Taken(a, cand) ==
-  IF "phnames_in_map_order" \in Dev THEN cand \in DOMAIN a ELSE cand \in MsgBaseSet(Nodes)
+Taken(a, cand, bases) ==
+  IF "phnames_in_map_order" \in Dev THEN cand \in DOMAIN a ELSE cand \in bases
 
 Put(a, k, v) == [x \in DOMAIN a \cup {k} |-> IF x = k THEN v ELSE a[x]]
 
 \* name representatives j..n of group b, trying suffixes from suf upwards
-RECURSIVE AssignMulti(_, _, _, _, _)
-AssignMulti(a, b, j, n, suf) ==
+RECURSIVE AssignMulti(_, _, _, _, _, _)
+AssignMulti(a, b, j, n, suf, bases) ==
   IF j > n THEN a
   ELSE LET cand == b \o "_" \o ToString(suf) IN
-       IF Taken(a, cand) THEN AssignMulti(a, b, j, n, suf + 1)
-       ELSE AssignMulti(Put(a, cand, <<b, j>>), b, j + 1, n, suf + 1)
+       IF Taken(a, cand, bases) THEN AssignMulti(a, b, j, n, suf + 1, bases)
+       ELSE AssignMulti(Put(a, cand, <<b, j>>), b, j + 1, n, suf + 1, bases)
 
 NameGroup(b) ==
   /\ b \in todo
   /\ "phnames_in_map_order" \in Dev \/ b = FirstTodo
-  /\ LET n == Len(MsgGroupReps(Nodes, b)) IN
-     asg' = IF n = 1 THEN Put(asg, b, <<b, 1>>) ELSE AssignMulti(asg, b, 1, n, 1)
+  /\ LET ns == Nodes n == Len(MsgGroupReps(ns, b)) IN
+     asg' = IF n = 1 THEN Put(asg, b, <<b, 1>>) ELSE AssignMulti(asg, b, 1, n, 1, MsgBaseSet(ns))
   /\ todo' = todo \ {b}
   /\ UNCHANGED c
 
@@ -70,16 +70,16 @@ Next == (\E b \in todo : NameGroup(b)) \/ (todo = {} /\ UNCHANGED vars)
 Spec == Init /\ [][Next]_vars
 
 \* the name the machine ends up giving to node n ("" = none)
-FinalName(n) ==
-  LET r == <<n.b, MsgPosIn(n.p, MsgGroupReps(Nodes, n.b))>> IN
+FinalName(ns, n) ==
+  LET r == <<n.b, MsgPosIn(n.p, MsgGroupReps(ns, n.b))>> IN
   IF \E k \in DOMAIN asg : asg[k] = r THEN CHOOSE k \in DOMAIN asg : asg[k] = r ELSE ""
 
-FinalNames == [i \in 1..Len(Nodes) |-> FinalName(Nodes[i])]
+FinalNames == LET ns == Nodes IN [i \in 1..Len(ns) |-> FinalName(ns, ns[i])]
 
 (***************************************************************************)
 (* (1) names are a function of the sequence of parts.                      *)
 (***************************************************************************)
-NamesAreFunction == todo = {} => FinalNames = NodeNames(Body)
+NamesAreFunction == todo = {} => FinalNames = MsgNamesOf(Nodes)
 
 (***************************************************************************)
 (* (2) properties of the names.                                            *)
@@ -94,7 +94,7 @@ FlatText(e) ==
 
 NameProps ==
   todo = {} =>
-  LET ns == Nodes nm == NodeNames(Body) bs == MsgBaseSet(ns) IN
+  LET ns == Nodes nm == MsgNamesOf(ns) bs == MsgBaseSet(ns) IN
   /\ \A i \in 1..Len(ns) : nm[i] # ""
   /\ \A i, j \in 1..Len(ns) : (ns[i].p = ns[j].p) <=> (nm[i] = nm[j])
   /\ \A i \in 1..Len(ns) :
